@@ -213,6 +213,22 @@ def run_instance(inst):
             c_set = sym.to_obj(enc(sim_set, sm3.arrays()))
             c_dat = sym.to_obj(enc(lambda arrs: sim_data(jnp.asarray([CVAL]), arrs), sm2.arrays()))
             dec(c_set, c_dat, "EQUIV_set_vs_data_set")
+            # chained, overlapping calls: whole module first, then the view (later call wins where they overlap)
+            whole = (lambda mm: mm) if kind == "node" else (lambda mm: mm.select(edges=list(mm.edges.index[~mm.edges[key].isna()])))
+            CV2 = 2.71875
+            m5 = build(name); whole(m5).set(key, CV2); sel(m5).set(key, CVAL)
+            sm5 = simenc.SymModule(m5, only=[k for k in simenc.SymModule(m5).keys() if k != key])
+            m6 = build(name); sm6 = simenc.SymModule(m6, only=[k for k in simenc.SymModule(m6).keys() if k != key])
+            def sim_chain(arrs):
+                ps = whole(m6).data_set(key, jnp.asarray([CV2]), None)
+                ps = sel(m6).data_set(key, jnp.asarray([CVAL]), ps)
+                return jx.integrate(m6, param_state=sm6.pstate(arrs) + ps, t_max=0.05, **kw)
+            try:
+                ch_set = sym.to_obj(enc(lambda arrs: jx.integrate(m5, param_state=sm5.pstate(arrs), t_max=0.05, **kw), sm5.arrays()))
+                ch_dat = sym.to_obj(enc(sim_chain, sm6.arrays()))
+                dec(ch_set, ch_dat, "EQUIV_chained_set_vs_data_set")
+            except Exception as ex:
+                viol("EQUIV_chained_set_vs_data_set", f"raised {type(ex).__name__}: {str(ex)[:100]}")
         else:
             res["counters"]["EQUIV_skipped_multi_group"] = 1
     # ------------------------------------------------------------- WRITE (concrete side-check)
